@@ -85,6 +85,29 @@ func runC06(c *Ctx) {
 			})
 			return true
 		})
+		// a constructor may build its range with another of the constructors, given its own from/to in that order
+		if n == 0 && good {
+			delegated := false
+			ast.Inspect(fd.Body, func(x ast.Node) bool {
+				call, ok := x.(*ast.CallExpr)
+				if !ok || len(call.Args) != 2 {
+					return true
+				}
+				fn := calleeOf(info, call)
+				if fn == nil || fn.Pkg() != p.Types || !ctors[fn.Name()] || fn.Name() == name {
+					return true
+				}
+				a0, ok0 := ast.Unparen(call.Args[0]).(*ast.Ident)
+				a1, ok1 := ast.Unparen(call.Args[1]).(*ast.Ident)
+				if ok0 && ok1 && a0.Name == "from" && a1.Name == "to" && isParsePos(info.TypeOf(a0)) && isParsePos(info.TypeOf(a1)) {
+					delegated = true
+				}
+				return true
+			})
+			if delegated {
+				n = 6
+			}
+		}
 		c.check(good && n == 6, "C06.R1", funcKey(p, fd)+"|copies-fields", c.pos(fd.Pos()), "From/To copy index, line and column of the matching argument",
 			name+" no longer copies Index/Line/Col of its from/to arguments field by field ("+why+")")
 	}
@@ -449,7 +472,8 @@ func checkNameRanges(c *Ctx, info *types.Info, body *ast.BlockStmt, where string
 			owner := types.ExprString(lse.X)
 			key := fmt.Sprintf("%s|name-range:%s#%d", where, owner, *n)
 			good, why := false, ""
-			if fn := calleeOf(info, call); fn != nil && fn.Name() == "NewRange" && len(call.Args) == 2 {
+			fn := calleeOf(info, call)
+			if fn != nil && fn.Name() == "NewRange" && len(call.Args) == 2 {
 				a0 := nodeText(c.fset, call.Args[0])
 				a1 := nodeText(c.fset, call.Args[1])
 				wantLen := "len(" + owner + ".Name)"
@@ -457,6 +481,40 @@ func checkNameRanges(c *Ctx, info *types.Info, body *ast.BlockStmt, where string
 					good = true
 				} else {
 					why = "the range is NewRange(" + a0 + ", " + a1 + "), expected PositionAt(Index() - " + wantLen + ") … Position()"
+				}
+			} else if fn != nil && fn.Pkg() != nil && fn.Pkg().Path() == pkgParser && len(call.Args) == 2 {
+				// a package-local helper (input, name) that returns NewRange(PositionAt(Index()-len(name)), Position())
+				okHelper := false
+				for _, hfd := range allFuncDeclsOfPkgPath(c, pkgParser) {
+					if hfd.Name.Name != fn.Name() || hfd.Recv != nil || hfd.Body == nil || len(hfd.Body.List) != 1 {
+						continue
+					}
+					ret, isRet := hfd.Body.List[0].(*ast.ReturnStmt)
+					if !isRet || len(ret.Results) != 1 {
+						continue
+					}
+					rc, isCall := ret.Results[0].(*ast.CallExpr)
+					if !isCall || len(rc.Args) != 2 || types.ExprString(rc.Fun) != "NewRange" {
+						continue
+					}
+					var prmNames []string
+					for _, prm := range hfd.Type.Params.List {
+						for _, nm := range prm.Names {
+							prmNames = append(prmNames, nm.Name)
+						}
+					}
+					if len(prmNames) != 2 {
+						continue
+					}
+					h0, h1 := nodeText(c.fset, rc.Args[0]), nodeText(c.fset, rc.Args[1])
+					if h1 == prmNames[0]+".Position()" && strings.Contains(h0, prmNames[0]+".PositionAt(") && strings.Contains(h0, prmNames[0]+".Index() - len("+prmNames[1]+")") {
+						okHelper = true
+					}
+				}
+				if okHelper && nodeText(c.fset, call.Args[1]) == owner+".Name" {
+					good = true
+				} else {
+					why = "NameRange is built by " + fn.Name() + "(" + nodeText(c.fset, call.Args[0]) + ", " + nodeText(c.fset, call.Args[1]) + "), which is not NewRange(PositionAt(Index() - len(" + owner + ".Name)), Position())"
 				}
 			} else {
 				why = "NameRange is not built by NewRange"
@@ -1121,4 +1179,13 @@ func positionFieldWrites(c *Ctx, rule, suffix string) {
 			fmt.Sprintf("%s writes %s.%s %s %s without the same adjustment of the other coordinate: index and column of the position no longer agree"+suffix, w.fn, w.base, w.field, w.op, w.val))
 	}
 	c.count("position_field_writes", len(writes))
+}
+
+func allFuncDeclsOfPkgPath(c *Ctx, path string) []*ast.FuncDecl {
+	for pth, p := range c.loaded {
+		if pth == path {
+			return allFuncDecls(p)
+		}
+	}
+	return nil
 }
